@@ -9,6 +9,30 @@
 
 namespace vs {
 
+// pixel identity: for memory-based organisations the raw-model bit position of channel sc; for function-backed (virtual)
+// views the function coordinate the locator / reference denotes, encoded as (x+50)*1000 + (y+50)
+template <class Org, bool Addressable = Org::addressable> struct Ident
+{
+    template <class M> static long P(Root<Org>& root, M const& m, long x, long y, int sc) { return Org::chan_bitpos(root.g, m.sx(x, y), m.sy(x, y), sc); }
+    template <class R> static long ref(unsigned char const* base, R&& r) { long v = -1; for_channels(r, [&](int i, auto&& ch) { if (i == 0) v = chan_refpos(base, ch); }); return v; }
+    template <class It> static long it(unsigned char const* base, It const& i) { return iter_pos(base, i); }
+    template <class L> static long loc(unsigned char const* base, L const& l) { return iter_pos(base, l.x()); }
+    template <class L> static bool steps_same(L const& l, long px, long rs) { return l.pixel_size() == px && l.row_size() == rs; }
+    template <class L> static long pixel_size(L const& l) { return l.pixel_size(); }
+    template <class L> static long row_size(L const& l) { return l.row_size(); }
+};
+template <class Org> struct Ident<Org, false>
+{
+    static long enc(long fx, long fy) { return (fx + 50) * 1000 + (fy + 50); }
+    template <class M> static long P(Root<Org>&, M const& m, long x, long y, int) { return enc(m.sx(x, y), m.sy(x, y)); }
+    template <class R> static long ref(unsigned char const*, R&& r) { return enc(long(gil::at_c<0>(r)) - 10, long(gil::at_c<1>(r)) - 100); }
+    template <class It> static long it(unsigned char const*, It const& i) { return enc(i.pos().x, i.pos().y); }
+    template <class L> static long loc(unsigned char const*, L const& l) { return enc(l.pos().x, l.pos().y); }
+    template <class L> static bool steps_same(L const&, long, long) { return true; }
+    template <class L> static long pixel_size(L const&) { return 0; }
+    template <class L> static long row_size(L const&) { return 0; }
+};
+
 struct C03Policy
 {
     static constexpr bool allow_conv = false;
@@ -33,9 +57,10 @@ struct C03Policy
         auto fail = [&](const char* sig, std::string const& d) { if (bad++ < 4) ctx.fail(id, sig, d); };
         // raw-model bit position of channel sc of the source pixel behind view coordinate (x,y); linear,
         // so it also names the one-past positions a locator may legitimately stand on
-        auto P = [&](long x, long y) { return Org::chan_bitpos(root.g, m.sx(x, y), m.sy(x, y), sc); };
-        auto refpos = [&](auto&& ref) { long r = -1; for_channels(ref, [&](int i, auto&& ch) { if (i == 0) r = chan_refpos(base, ch); }); return r; };
-        auto locpos = [&](loc_t const& l) { return iter_pos(base, l.x()) + (Ch ? 0 : 0); };
+        using Id = Ident<Org>;
+        auto P = [&](long x, long y) { return Id::P(root, m, x, y, sc); };
+        auto refpos = [&](auto&& ref) { return Id::ref(base, ref); };
+        auto locpos = [&](loc_t const& l) { return Id::loc(base, l); };
         // a locator's x() of a channel view / planar view points at channel sc's position: same as P
         ++ctx.evaluations;
 
@@ -85,14 +110,14 @@ struct C03Policy
         }
 
         // ---- (B) locator closure under single moves; (C) cached locations; (D) y_distance_to
-        const long px = v.pixels().pixel_size(), rs = v.pixels().row_size();
+        const long px = Id::pixel_size(v.pixels()), rs = Id::row_size(v.pixels());
         if (locpos(v.pixels()) != P(0, 0)) fail("locator-origin", "");
         for (long y = 0; y <= h; ++y) for (long x = 0; x <= w; ++x)
         {
             loc_t l0 = v.pixels() + point_t(x, y);
             auto rep_ok = [&](loc_t const& l, long tx, long ty, const char* what) {
                 ++ctx.counters["locator_moves"];
-                if (locpos(l) != P(tx, ty) || l.pixel_size() != px || l.row_size() != rs)
+                if (locpos(l) != P(tx, ty) || !Id::steps_same(l, px, rs))
                     fail("locator-move", vh::S() << what << " from (" << x << "," << y << ") should stand on (" << tx << "," << ty << ")");
                 if (tx >= 0 && tx < w && ty >= 0 && ty < h && refpos(*l) != P(tx, ty)) fail("locator-deref", what);
             };
@@ -112,8 +137,8 @@ struct C03Policy
                 rep_ok(l0.xy_at(dx, dy), tx, ty, "xy_at(dx,dy)");
                 rep_ok(l0 + point_t(dx, dy), tx, ty, "loc+(dx,dy)");
                 rep_ok(l0 - point_t(-dx, -dy), tx, ty, "loc-(-dx,-dy)");
-                if (iter_pos(base, l0.x_at(dx, dy)) != P(tx, ty)) fail("locator-x_at", "");
-                if (iter_pos(base, l0.y_at(dx, dy)) != P(tx, ty)) fail("locator-y_at", "");
+                if (Id::it(base, l0.x_at(dx, dy)) != P(tx, ty)) fail("locator-x_at", "");
+                if (Id::it(base, l0.y_at(dx, dy)) != P(tx, ty)) fail("locator-y_at", "");
                 if (tx < w && ty < h)
                 {
                     if (refpos(l0(dx, dy)) != P(tx, ty)) fail("locator-call", vh::S() << "loc(" << dx << "," << dy << ") from (" << x << "," << y << ")");
@@ -200,7 +225,7 @@ struct C03Policy
         {
             ++ctx.witness["traversable_true"];
             for (long y = 0; y + 1 < h; ++y)
-                if (iter_pos(base, v.row_begin(y) + w) != P(0, y + 1)) fail("is_1d_traversable-lies", vh::S() << "row " << y);
+                if (Id::it(base, v.row_begin(y) + w) != P(0, y + 1)) fail("is_1d_traversable-lies", vh::S() << "row " << y);
         }
         else ++ctx.witness["traversable_false"];
         if (m.a < 0 || m.d < 0 || m.b < 0 || m.c < 0) ++ctx.witness["negative_step_states"];
